@@ -92,6 +92,7 @@ func loadSettingsFromCmdArgs(cmdArgs []string) (*Settings, error) {
 				trustedProxyCIDRs = append(trustedProxyCIDRs, trimmed)
 			}
 		}
+		trustedProxyCIDRs = keepConfiguredTrustedProxyCIDRs(*trustedProxyCIDRsRaw, trustedProxyCIDRs)
 	}
 
 	return &Settings{
